@@ -5,7 +5,6 @@ from numbers import Number
 import numpy as np
 from packaging.version import Version
 
-from unyt import delta_degC
 from unyt.array import NULL_UNIT, unyt_array, unyt_quantity
 from unyt.dimensions import temperature
 from unyt.exceptions import (
@@ -868,7 +867,7 @@ def diff_helper(func, arr, *args, **kwargs):
                 "Quantities with units of Fahrenheit or Celsius "
                 "cannot be multiplied, divided, subtracted or added."
             )
-        ret_units = delta_degC
+        ret_units = u
     else:
         ret_units = u
     return func._implementation(np.asarray(arr), *args, **kwargs) * ret_units
